@@ -94,7 +94,7 @@ type c19Flags struct {
 	Decomposers []string // straight-line decomposers
 	RangeDecomp []string // decomposers that iterate RangeTable
 	RangeTable  string
-	Exempt      map[string]string // constants a decomposer need not report
+	Exempt      map[string]string  // constants a decomposer need not report
 	Preds       map[string]c19Pred // frozen predicate → constant table (confirmed by reading)
 }
 
@@ -129,10 +129,10 @@ var c19Families = []c19Flags{
 
 type c19 struct {
 	*Ctx
-	idx    map[string]*tables.Index
-	tabs   map[*types.Var]string // registered name tables → display name
-	tabPos map[*types.Var]string
-	sizes  map[string]any
+	idx       map[string]*tables.Index
+	tabs      map[*types.Var]string // registered name tables → display name
+	tabPos    map[*types.Var]string
+	sizes     map[string]any
 	errWrites map[types.Object]string
 	decomps   map[*ast.FuncDecl]bool
 }
@@ -169,18 +169,21 @@ func runC19(cx *Ctx) {
 		"Decided: enum-cover — every declared constant VALUE of each enumeration (aliases share a key) is a key of its name table / has a case in its name switch (" +
 		"NTStatusToStringName, NTStatusToGoErrorMap minus success, CommandCodeNames, three sub-command tables, SessionMessageTypeToString, UserAccountControlMap minus the reserved-bit table, PasswordPropertiesMap, SAMAccountTypeMap, MSPKIEnrollmentFlagMap, DomainFunctionalityLevelToWindowsVersion, six key-credential switches); " +
 		"enum-name — every row's name is a non-empty constant string, differs from what the String() method returns on a miss (literal or Sprintf pattern) and is pairwise distinct within the table; " +
-		"stringer — T.String() returns exactly the table value on the found branch and a placeholder otherwise, special-casing nothing; " +
-		"nt-error — every row of the error table is a package-level errors.New/fmt.Errorf with non-empty text, and NT_STATUS.Error() returns nil only for the success value or a status missing from the table, every other return being fmt.Errorf with a numeric verb applied to the receiver (so non-nil for every declared non-success status reduces to table coverage); " +
-		"table-const — no name table is written, deleted from, re-assigned, aliased or passed away anywhere in the module (the static rows are the run-time rows); " +
+		"stringer — every control path of T.String() is enumerated with its exact guard (if / else-if / switch, early returns, result accumulators, `v == \"\"` / `v == nil` tests of the looked-up value, a tail call of a shared helper that receives the table and the receiver); a return reachable when the receiver is a key of the table returns exactly the table value, a return reachable when it is not returns a placeholder (literal, Sprintf pattern or concatenation), and nothing is special-cased; " +
+		"nt-error — every row of the error table is a package-level errors.New/fmt.Errorf with non-empty text, and for NT_STATUS.Error() the guards of all control paths are evaluated under `receiver ∈ NTStatusToGoErrorMap ∧ receiver ≠ NT_STATUS_SUCCESS` (boolean reasoning over found / equals atoms, both polarities, &&, ||, De Morgan, switch arms, accumulators): no nil return is reachable, and every return that is reachable is fmt.Errorf / errors.New whose text prints the receiver numerically (numeric verb not diverted to String(), strconv.Format*), so non-nil for every declared non-success status reduces to table coverage; " +
+		"table-const — no name table (nor any constant table a decomposer or name function was resolved through, package-level or local) is written, deleted from, re-assigned, aliased or passed away anywhere in the module, except to a module function that only reads its parameter (the static rows are the run-time rows); " +
 		"flag-family — constants of Flags, Flags2, Capabilities, SecurityMode, UserAccountControl, CustomKeyInformationFlags are single bits and pairwise distinct (zero is a sentinel and must not be used as a mask); " +
-		"flag-decomp — in each decomposer every test is `word & C ==C | !=0` of one family constant against itself with positive polarity, appends exactly one non-empty name that is not the empty-word placeholder, is not another constant's name and is distinct from the other names, and every family constant is tested exactly once (range decomposers: the single test is `word & key != 0`, the body appends the key or the value, and every table key is a single-bit family constant); " +
-		"order — every iteration over a map inside a decomposer or over a name table anywhere in the module hands each variable it fills to sort.* (total order) before any other use; straight-line decomposers report in source order; " +
-		"predicate — every niladic bool method of a flag type is `recv & C ⋈ 0|C` for exactly one family constant, agrees with the frozen predicate→constant table (26 rows), and two predicates share a constant only as a complementary pair. " +
+		"flag-decomp — in each decomposer every test is `word & C ==C | !=0 | >0` of one family constant against itself with positive polarity (or the negated test followed by `continue`), emits exactly one non-empty name (append, or WriteString on a builder) that is not the empty-word placeholder, is not another constant's name and is distinct from the other names — or the tested constant itself for a decomposer into values — and every family constant is tested exactly once. A loop over a constant table (array / slice / map composite literal of {mask, name} rows, parallel tables indexed by the counter, a mask list with names looked up in a constant map, slices.Sorted(maps.Keys(T)), a counting loop or a bit walk with constant bounds, `_, ok := T[k]` membership) is resolved statically and decided row by row exactly like the if-chain it replaces, so a missing, duplicated or mis-named row is reported; tests moved into a helper that receives the word (and the table) are followed; range decomposers over the bound map: the single test is `word & key != 0`, the body appends the key or the value, and every table key is a single-bit family constant; " +
+		"order — every iteration over a map inside a decomposer (or a helper it calls) or over a name table anywhere in the module hands each variable it fills to sort.* / slices.Sort* (total order) before any other use; if-chains report in source order and array / slice tables in index order; " +
+		"predicate — every niladic bool method of a flag type is `recv & C ⋈ 0|C` for exactly one family constant, agrees with the frozen predicate→constant table (26 rows), and two predicates share a constant only as a complementary pair; " +
+		"name functions that are no longer a top-level switch (if-chain, lookup in a constant map, switch with initialiser) are evaluated for every declared constant: exactly one return is reachable under `value == K`, and what it returns is K's name. " +
 		"NOT decided: agreement of constant values or spellings with MS-CIFS/MS-SMB/MS-ADTS/MS-ERREF; that error texts are meaningful; run-time behaviour of fmt/sort/strings (trusted); that a decomposer's accumulator is what it finally returns/joins and that CustomKeyInformationFlags.FromBytes stores the byte before testing it; what name functions yield for UNDECLARED values beyond being distinguishable from declared ones (e.g. KeyStrength.FromBytes keeps a stale Name on a miss); flag words decomposed outside the bound types (ad-hoc masks in callers); MASK-SAT (C18)."
 	r.Assumptions = []string{
 		"go/types constant evaluation and object resolution (x/tools v0.50.0 loader, go1.26.8 front end)",
 		"fmt: %d/%o/%b print an integer operand numerically; %x/%X/%v/%s/%q are diverted to String()/Error()/Format() when the operand's type has one; Errorf never returns nil",
-		"sort.Strings / sort.Slice with a total order produce an order that depends only on the multiset of elements",
+		"sort.Strings / sort.Slice / slices.Sort / slices.SortFunc(cmp.Compare) with a total order produce an order that depends only on the multiset of elements; slices.Sorted(maps.Keys(m)) yields every key of m once, in ascending order",
+		"errors.New never returns nil; strconv.Itoa / FormatInt / FormatUint render their operand numerically; strings.Builder / bytes.Buffer WriteString appends its operand",
+		"unsigned loop variables wrap modulo 2^width (bit walks `m <<= 1` until m == 0); a loop whose variable, bound and step are constants visits exactly the simulated values",
 		"Go rejects duplicate constant keys in a map literal and duplicate constant cases in a switch at compile time (so one key per value is guaranteed by the loader's type check)",
 		"frozen tables (confirmed by reading): predicate→constant (26 rows), UAC reserved bits exempt from naming (10 rows), bindings table↔enumeration (12 maps, 6 switches, 6 flag families)",
 	}
@@ -269,7 +272,7 @@ func (p *c19Placeholder) matches(name string) string {
 	return ""
 }
 
-var c19VerbRe = regexp.MustCompile(`%[-+# 0]*[0-9]*(\.[0-9]*)?[a-zA-Z]`)
+var c19VerbRe = regexp.MustCompile(`%%|%[-+# 0]*[0-9]*(\.[0-9]*)?[a-zA-Z]`)
 
 func formatToRegexp(f string) *regexp.Regexp {
 	var b strings.Builder
@@ -277,7 +280,11 @@ func formatToRegexp(f string) *regexp.Regexp {
 	last := 0
 	for _, m := range c19VerbRe.FindAllStringIndex(f, -1) {
 		b.WriteString(regexp.QuoteMeta(f[last:m[0]]))
-		b.WriteString(".*")
+		if f[m[0]:m[1]] == "%%" {
+			b.WriteString("%")
+		} else {
+			b.WriteString(".*")
+		}
 		last = m[1]
 	}
 	b.WriteString(regexp.QuoteMeta(f[last:]))
@@ -309,34 +316,56 @@ func (c *c19) stringer(e c19Enum) *c19Placeholder {
 		return nil
 	}
 	pos := c.P.Rel(fd.Pos())
-	lk := tables.AnalyseLookup(ix.Info(), fd)
+	lk := tables.AnalyseLookupWith(ix.Info(), fd, c.source)
 	if len(lk.Problems) > 0 {
 		r.Undecided("stringer", key, pos, "shape not recognised: "+strings.Join(lk.Problems, "; "))
 		return nil
 	}
+	// Every control path is enumerated with its exact guard; a return is decided
+	// by asking whether it can be reached when the receiver IS a key of the table
+	// (then it must return the table's value) and when it is NOT (then what it
+	// returns is the placeholder), whatever the spelling of the guard.
 	ph := &c19Placeholder{}
 	found := 0
+	isKey := tables.Assume{Atom: tables.FoundIn(m), Val: true}
+	notKey := tables.Assume{Atom: tables.FoundIn(m), Val: false}
 	for _, p := range lk.Paths {
-		if t, ok := p.HasUnknown(); ok {
+		if tables.Sat(p.Cond) == tables.No {
+			continue // contradictory guard: dead code
+		}
+		if t, ok := p.UnknownAtom(); ok {
 			r.Undecided("stringer", key, c.P.Rel(p.Ret.Pos()), "a return is guarded by a condition the rule cannot interpret: "+t)
 			return nil
 		}
-		if p.Has("eq", false, nil) {
-			r.Undecided("stringer", key, c.P.Rel(p.Ret.Pos()), "String() special-cases a value instead of consulting "+e.Map)
-			return nil
-		}
-		if p.Result == nil {
+		if p.Result == nil && !p.Zero {
 			r.Undecided("stringer", key, c.P.Rel(p.Ret.Pos()), "bare return")
 			return nil
 		}
-		res := lk.ClassifyString(p.Result)
-		isFound := p.Has("found", false, func(a tables.Atom) bool { return a.Map == m })
-		if isFound {
+		var res tables.NameResult
+		if p.Zero {
+			empty := ""
+			res.Literal = &empty
+		} else {
+			res = p.Owner.ClassifyString(p.Result)
+		}
+		if tables.Sat(p.Cond, isKey) != tables.No {
+			// reachable for a declared constant that has a row
 			if res.FromMap != m {
-				r.Fail("stringer", key, c.P.Rel(p.Ret.Pos()), fmt.Sprintf("on the found branch String() returns `%s`, not the value of %s for the receiver", types.ExprString(p.Result), e.Map))
-				return nil
+				if tables.Mentions(p.Cond, "eq") {
+					r.Undecided("stringer", key, c.P.Rel(p.Ret.Pos()), "String() special-cases a value instead of consulting "+e.Map)
+					return nil
+				}
+				if tables.Sat(p.Cond, notKey) == tables.No {
+					r.Fail("stringer", key, c.P.Rel(p.Ret.Pos()), fmt.Sprintf("on the found branch String() returns `%s`, not the value of %s for the receiver", c19ResultText(p), e.Map))
+					return nil
+				}
+				// reachable both for keys and for non-keys and not the table value:
+				// left to the final "no return yields the value" verdict
+			} else {
+				found++
 			}
-			found++
+		}
+		if tables.Sat(p.Cond, notKey) == tables.No {
 			continue
 		}
 		switch {
@@ -350,9 +379,6 @@ func (c *c19) stringer(e c19Enum) *c19Placeholder {
 		case res.FromMap != nil:
 			// indexing without a successful comma-ok: yields "" on a miss
 			ph.Literals = append(ph.Literals, "")
-			if !p.Has("found", true, nil) {
-				found++ // `return M[recv]` unguarded: the found case is served by this return
-			}
 		default:
 			r.Undecided("stringer", key, c.P.Rel(p.Ret.Pos()), "cannot classify the miss result `"+res.Other+"`")
 			return nil
@@ -364,6 +390,13 @@ func (c *c19) stringer(e c19Enum) *c19Placeholder {
 	}
 	r.OK("stringer", key, pos, fmt.Sprintf("found ⇒ %s[recv]; miss ⇒ %q %q", e.Map, ph.Literals, ph.PatText))
 	return ph
+}
+
+func c19ResultText(p *tables.RetPath) string {
+	if p.Result == nil {
+		return "the zero value"
+	}
+	return types.ExprString(p.Result)
 }
 
 // ---------------------------------------------------------------- enum-cover / enum-name
